@@ -34,7 +34,7 @@ FLOORS = {
               'real:exit_callbacks_seen': 8, 'real:gc_scenarios': 1, 'real:supervision_window_reached': 1},
     'thorough': {'real:terminate_scenarios': 20, 'real:signal_scenarios': 35},
 }
-STATES = ['idle', 'python', 'c_sleep', 'except_handler', 'translate']
+STATES = ['idle', 'python', 'c_sleep', 'except_handler', 'translate', 'sending_result']
 TERMSIGS = ['SIGHUP', 'SIGQUIT', 'SIGALRM', 'SIGUSR2', 'SIGXCPU', 'SIGVTALRM', 'SIGTERM']
 
 
@@ -103,6 +103,10 @@ def plan(tier, seed):
     if tier == 'quick':
         # signals only the full protection set handles
         chosen_sig += [('operator', 'c_sleep', 2, 'SIGALRM'), ('operator', 'idle', 2, 'SIGXCPU')]
+        # the worker is serialising / sending its result when the signal comes
+        chosen_sig += [c for c in (('operator', 'sending_result', 2, 'SIGTERM'),
+                                   ('terminate_job', 'sending_result', 1, 'SIGTERM'))
+                       if c not in chosen_sig]
     for (src, st, nproc, s) in chosen_sig:
         specs.append({'lane': 'real', 'sc': 'signal', 'timeout': 90, 'params': {
             'source': src, 'worker_state': st, 'nproc': nproc,
